@@ -17,7 +17,10 @@ import numpy as np
 from harness.core import CaseResult, Fail
 from refmodel.poly import Poly, frac_array, monomials, zeros
 
-DXS = {"1": Fraction(1), "1/4": Fraction(1, 4), "3/7": Fraction(3, 7)}
+DXS = {"1": Fraction(1), "1/4": Fraction(1, 4), "3/7": Fraction(3, 7), "3/10": Fraction(3, 10)}
+# floating-point replays of the same cases: kernel precision x type of the scalar objects the caller passes
+FLOAT_MODES = ["float64:float", "float64:np", "float32:float", "float32:np"]
+_STATE = {"float": False, "tol": 0.0}
 SHAPES = {2: (7, 9), 3: (6, 7, 8)}
 R = np.float64
 
@@ -36,22 +39,88 @@ def interior(shape, m):
     return tuple(slice(m, n - m) for n in shape)
 
 
+class _FloatSpne:
+    """Floating-point replay of the exact cases: the generators are built for the requested precision,
+    rational arrays / scalars are converted at the call boundary (scalars to Python floats or to numpy
+    scalars of the kernel precision - what a caller would naturally pass), results are copied back."""
+
+    def __init__(self, spne, mode):
+        self._spne = spne
+        prec, styp = mode.split(":")
+        self.real_t = np.dtype(prec).type
+        self.sconv = float if styp == "float" else self.real_t
+
+    def _arr(self, v):
+        return np.ascontiguousarray(v.astype(np.float64).astype(self.real_t))
+
+    def _scal(self, v):
+        if isinstance(v, (list, tuple)):
+            return [self._scal(x) for x in v]
+        return self.sconv(float(v))
+
+    def __getattr__(self, name):
+        gen = getattr(self._spne, name)
+
+        def make(**kw):
+            kw = {k: (self._arr(v) if isinstance(v, np.ndarray) else v) for k, v in kw.items()}
+            kw["real_t"] = self.real_t
+            k = gen(**kw)
+
+            def call(**args):
+                conv, mags, smag = {}, [0.0], [0.0]
+                for a, v in args.items():
+                    if isinstance(v, np.ndarray):
+                        conv[a] = self._arr(v)
+                        if not np.all(v == _GARBAGE):
+                            mags.append(float(np.abs(conv[a]).max()))
+                    else:
+                        conv[a] = self._scal(v)
+                        smag.append(float(np.max(np.abs(np.asarray(conv[a], dtype=np.float64)))))
+                k(**conv)
+                _STATE["tol"] = 64 * float(np.finfo(self.real_t).eps) * (1 + max(mags)) ** 2 * (1 + max(smag))
+                for a, v in args.items():
+                    if isinstance(v, np.ndarray):
+                        v[...] = conv[a].astype(np.float64)
+
+            return call
+
+        return make
+
+
 def _cmp(fails, key, what, got, want, sl, **detail):
     g, w = got[sl], want[sl]
-    neq = g != w
+    if _STATE["float"]:
+        neq = ~(np.abs(g.astype(np.float64) - w.astype(np.float64)) <= _STATE["tol"])
+        detail = dict(detail, tol=_STATE["tol"], mode=_STATE["mode"])
+        key = key + ":floating-point"
+    else:
+        neq = g != w
     if np.any(neq):
         idx = tuple(int(i) for i in np.argwhere(neq)[0])
         fails.append(Fail(key, what, cell_in_interior=idx, got=g[idx], want=w[idx], **detail))
     return int(g.size)
 
 
+_GARBAGE = Fraction(977, 3)
+
+
 def _garbage(shape):
-    return zeros(shape, Fraction(977, 3))
+    return zeros(shape, _GARBAGE)
 
 
-def case_op(op, dim, dxs):
+def case_op(op, dim, dxs, mode="exact"):
     import sopht.numeric.eulerian_grid_ops as spne
 
+    _STATE.update(float=mode != "exact", tol=0.0, mode=mode)
+    if mode != "exact":
+        spne = _FloatSpne(spne, mode)
+    try:
+        return _case_op(spne, op, dim, dxs, mode)
+    finally:
+        _STATE.update(float=False)
+
+
+def _case_op(spne, op, dim, dxs, mode):
     dx = DXS[dxs]
     shape = SHAPES[dim]
     X = sim_coords(dim, shape, dx)
@@ -277,7 +346,7 @@ def case_op(op, dim, dxs):
         from harness.interp import HarnessError
 
         raise HarnessError(f"C05 {tag}: vacuous (all expected values zero)")
-    return CaseResult(fails=fails, states=states, transitions=trans, traces=trans, outcome=f"{tag}:{dxs}:{nz}", extra={"nontrivial_expectations": nz})
+    return CaseResult(fails=fails, states=states, transitions=trans, traces=trans, outcome=f"{tag}:{dxs}:{nz}:{mode}", extra={"nontrivial_expectations": nz})
 
 
 CASES = {"op": case_op}
@@ -298,7 +367,11 @@ def run(r) -> None:
                 cases.append(dict(op=op, dim=dim, dxs=d))
     cases.sort(key=lambda c: (c["op"] != "eno3", c["dim"] != 3))
     r.run_cases("operators", "op", cases)
+    # the same cases in floating point for both kernel precisions, with the scalar arguments passed as
+    # Python floats and as numpy scalars, on spacings that are NOT representable in single precision
+    fcases = [dict(op=op, dim=dim, dxs=d, mode=m) for dim in (2, 3) for op in OPS[dim] for d in ("3/7", "3/10") for m in FLOAT_MODES]
+    r.run_cases("operators-floating-point", "op", fcases)
     r.bounds = {"monomials": "all x^a y^b z^c with a+b+c <= 2 (<= 3 for Laplacians, per-variable <= 3 for filters, ENO3: degree <= 3 along the axis)",
-                "grids": SHAPES, "spacings": dxs, "eno3_velocity_patterns": ["++", "--", "mixA", "mixB", "alt", "tie", "one-tie"], "arithmetic": "exact (Fractions)"}
+                "grids": SHAPES, "spacings": dxs, "eno3_velocity_patterns": ["++", "--", "mixA", "mixB", "alt", "tie", "one-tie"], "arithmetic": "exact (Fractions); floating-point replays " + ", ".join(FLOAT_MODES) + " on spacings 3/7, 3/10 with tolerance 64 eps (1 + max|input|)^2 (1 + |scalar|)"}
     r.extra["rule"] = "one state per (operator variant, monomial, interior cell) compared with == against the analytic derivative"
     r.assumptions = ["kernels executed by the interpreter in exact mode on the captured assignment collections (float literals rationalised to within 1 ulp)"]
